@@ -147,7 +147,7 @@ PROPS = {
         "assumptions": [
             "the harness runs as root; am_root = true in the model runs (theorems quantify over am_root)",
             "directory modification times are outside the property's statement (regular-file mtime only) and not compared",
-            "uid/gid mapping by name: sender and receiver share one user database in the sandbox, so mapping is the identity on named ids; ids without a name (77777/88888) are kept numerically",
+            "uid/gid mapping by name: real sender and receiver share one user database in the sandbox (identity on named ids); the mapping itself is exercised by a hand-written sender that lists id 4242 as 'nobody', 4343 as 'nogroup' and other ids with unknown names or not at all; theorems listed_known_name_maps_to_local_id / listed_unknown_name_keeps_the_id / unlisted_id_is_kept are about map_id, which setUid's lookup in Transfer.Users / Groups is modelled by (oracle-checked, no unit correspondence)",
         ],
         "rule": "unit: real recvGenerator+touchUpDirs and recvFile1 on all 512 permission values (sampled), mtimes {0, 1, -1, -86400, pre-1970, 2^31-1, -2^31, > 2^31}, uid/gid {0, 1234, 65534}, link targets incl. non-UTF-8 / absolute / '..', rdev values, every subset of -l -p -t -o -g --devices --specials, vs the model and the property oracle; end to end: trees with every entry type, modes 0000..0777 on files and directories (read-only directories with contents), mtimes across the signed 32-bit range with sub-second parts, uids/gids with and without local names, prior destination per entry {missing, same, same with other metadata, different, wrong type}, option subsets, five arrangements; lstat of every destination entry vs source per option. non-trivial = entry whose prior state differs from the source",
         "exhaustive": False,
